@@ -182,23 +182,36 @@ func H_meta() {
 	var ba, bb bool
 	cls := vGuard(func() {
 		switch mode {
-		case "abs": // absolute path: same result from every start node
-			a, okA = vSelect(p, navAt(doc, cur, attr), max)
-			b, okB = vSelect(p, navAt(doc, 0, -1), max)
+		case "abs": // absolute path: same result from every start node (one compiled expression)
+			e, err := Compile(p)
+			if err != nil {
+				vObserve("compile-error", p+": "+err.Error())
+				return
+			}
+			a, okA = vDrain(e.Select(navAt(doc, cur, attr)), max)
+			b, okB = vDrain(e.Select(navAt(doc, 0, -1)), max)
 		case "rel": // relative path composes with the context's address
 			a, okA = vSelect(p, navAt(doc, cur, attr), max)
 			addr := vAddress(doc, cur, attr)
 			vObserve("address", addr)
 			b, okB = vSelect(addr+"/"+p, navAt(doc, 0, -1), max)
-		case "true":
+		case "true", "paren", "self-union":
+			w := p + "[true()]"
+			if mode == "paren" {
+				w = "(" + p + ")"
+			} else if mode == "self-union" {
+				w = p + " | " + p
+			}
 			a, okA = vSelect(p, navAt(doc, cur, attr), max)
-			b, okB = vSelect(p+"[true()]", navAt(doc, cur, attr), max)
-		case "paren":
-			a, okA = vSelect(p, navAt(doc, cur, attr), max)
-			b, okB = vSelect("("+p+")", navAt(doc, cur, attr), max)
-		case "self-union":
-			a, okA = vSelect(p, navAt(doc, cur, attr), max)
-			b, okB = vSelect(p+" | "+p, navAt(doc, cur, attr), max)
+			// the wrapped expression is compiled once and first used from the root: the
+			// identity holds at every start node of one compiled expression
+			e, err := Compile(w)
+			if err != nil {
+				vObserve("compile-error", w+": "+err.Error())
+				return
+			}
+			vDrain(e.Select(navAt(doc, 0, -1)), max)
+			b, okB = vDrain(e.Select(navAt(doc, cur, attr)), max)
 		case "equiv": // two spellings of one path (abbreviation vs expansion): same sequence
 			a, okA = vSelect(p, navAt(doc, cur, attr), max)
 			b, okB = vSelect(vParam("expr2"), navAt(doc, cur, attr), max)
